@@ -14,7 +14,9 @@ Objects ==
 
 FnrArgs == {<<>>, <<<<0, 1>>, <<1, 2>>>>, <<<<1, 3>>>>}
 FprArgs == {<<>>, <<<<1, 4>>, <<1, 1>>>>, <<<<2, 3>>, <<0, 1>>, <<2, 3>>>>}
-ThrArgs == {<<>>, <<<<1, 2, 0>>, <<1, 1, 0>>>>, <<<<5, 1, 0>>, <<-1, 1, 0>>, <<1, 1, 0>>>>}
+(* +-1000000 stands for +-infinity (accept-all / reject-all end points)          *)
+ThrArgs == {<<>>, <<<<1, 2, 0>>, <<1, 1, 0>>>>, <<<<5, 1, 0>>, <<-1, 1, 0>>, <<1, 1, 0>>>>,
+            <<<<-1000000, 1, 0>>, <<3, 2, 0>>, <<1000000, 1, 0>>>>}
 NbArgs  == {-1, 1, 2, 7, 100}
 Args == {[fnr |-> a, fpr |-> b, thr |-> c, nb |-> d] :
            a \in FnrArgs, b \in FprArgs, c \in ThrArgs, d \in NbArgs}
